@@ -316,7 +316,7 @@ def gen_cases(rnd, quick):
     put(shape_longnames(rnd, 65537))
     put(shape_ids(rnd))
     if not quick:
-        put(shape_ids(rnd, 65540))
+        put(shape_ids(rnd, 3000))      # (the 65535 id limit itself: existing `idt` tie; the list-based model is quadratic)
         for _ in range(4):
             put(shape_random(rnd, 3000))
         for n in (900, 1400, 3000):
